@@ -6,6 +6,7 @@
 import FlacModel.Spec.Rfc
 import FlacModel.Model.Decode
 import FlacModel.Proofs.CrcEq
+import FlacModel.Gen.KernelsEnc
 
 namespace Flac.C02
 open Flac Gen
